@@ -108,6 +108,20 @@ PROPS = {
                                             K("k3::S-UseExternal")],
         ["BaseTemplate.render exception flow and create_formatted_exception (pending)",
          "ExceptionFormatter record order (pending)"]),
+    "C19": k3prop(
+        "Non-strict compilation is proved (on the emitted code) to raise the original ExpressionError, "
+        "with the invalid expression's token and position, if and only if rendering reaches it; strict "
+        "compilation is checked to reject the same template with that token and offset.",
+        [K("k3::S-Deferred"), K("k3::S-Strict-rejects")],
+        ["identity of strict and non-strict code for valid templates (pending: strict-identity unit)",
+         "strict option plumbing / reads-frame (pending)"]),
+    "C20": k3prop(
+        "Text-mode templates: the emitted code is proved to copy the source text ('<', '&', tags "
+        "included) with each ${expr} replaced by the unescaped string form and $$ by $, also when the "
+        "text starts with markup characters.",
+        [K("k3::S-TextMode"), K("k3::S-TextMode-lt"), K("k3::S-TextMode-endtag")],
+        ["delimiter search of Interpolator.__call__ (bounded stand-in pending)",
+         "PageTextTemplateFile.render encoding (pending)"]),
     "C01": {
         "technique": TECH + "; applied to code emitted by the real compiler for schema templates (K3)",
         "level_text": "For each TAL statement the emitted render code is proved, for all values, all "
